@@ -43,15 +43,15 @@ def apply_edits(dst, edits):
     return None
 
 
-def analyse(facts_path):
-    """evaluate every rule on a fact file: {prop: {key: found}} of violations"""
+def analyse(facts_path, only_prop=None):
+    """evaluate every rule (or those serving only_prop) on a fact file: {prop: {key: found}} of violations"""
     import allrules
     from facts import Facts
     from roles import Roles
     from engine import RULES, Ctx, evaluate
     facts = Facts(facts_path)
     ctx = Ctx(facts, Roles(facts))
-    evaluate(ctx)
+    evaluate(ctx, only_prop)
     out = {}
     for inst in ctx.instances:
         if inst.held:
@@ -62,7 +62,7 @@ def analyse(facts_path):
     return out
 
 
-def run_variant(v, repo, extract):
+def run_variant(v, repo, extract, only_prop=None):
     """returns dict(status=ok|inapplicable|does-not-compile|missed|false-alarm, detail, reported)"""
     d, dst = scratch_copy(repo)
     try:
@@ -72,7 +72,7 @@ def run_variant(v, repo, extract):
         fp = os.path.join(d, "facts.json")
         if not extract(dst, fp):
             return {"status": "does-not-compile", "detail": "the edited copy does not compile"}
-        rep = analyse(fp)
+        rep = analyse(fp, only_prop)
     finally:
         shutil.rmtree(d, ignore_errors=True)
     expect = v.get("expect", {})
@@ -90,30 +90,45 @@ def run_variant(v, repo, extract):
 
 
 def run(prop, repo, extract, verbose=False, controls_only=False):
+    """quick (controls_only): the positive controls of the zero-count rules serving `prop` (seeded variants flagged `control_for`);
+    thorough: every variant / benign twin that concerns `prop`. Only a *missed* expectation of `prop` on a variant that applied and
+    compiled is a failure of the check (CONTROL-DEAD / MISSED); inapplicable or non-compiling variants are recorded, not failed."""
+    import allrules
+    from engine import RULES
     res = {"controls": [], "variants": [], "failures": []}
-    # positive controls
-    try:
-        import controls
-        cres = controls.run(prop, extract)
-        res["controls"] = cres["controls"]
-        res["failures"] += cres["failures"]
-    except ImportError:
-        pass
-    if controls_only:
-        return res
     for v in load_variants():
-        relevant = prop in v.get("expect", {}) or prop in v.get("silent_for", []) or (v.get("kind") == "benign" and prop in v.get("props", []))
-        if not relevant:
+        ctl_rules = [rid for rid in v.get("control_for", []) if rid in RULES and prop in RULES[rid].props]
+        relevant = prop in v.get("expect", {}) or (v.get("kind") == "benign" and prop in v.get("props", []))
+        if controls_only and not ctl_rules:
             continue
-        r = run_variant(v, repo, extract)
-        res["variants"].append({"variant": v["name"], "kind": v.get("kind", "breaking"), "status": r["status"], "detail": r.get("detail", ""),
-                                "reported": {p: k for p, k in r.get("reported", {}).items() if p == prop or p in v.get("expect", {})}})
-        if r["status"] in ("missed", "false-alarm", "does-not-compile"):
-            # only this property's own expectation can fail this property's check
-            if r["status"] == "does-not-compile":
-                res["failures"].append((f"variant-{v['name']}", f"seeded variant {v['name']} no longer compiles on the current tree"))
-            elif any(m.startswith(prop + ":") or m.startswith(prop + " ") for m in r["detail"].split("; ")):
-                res["failures"].append((f"variant-{v['name']}", f"checker self-validation failed on variant {v['name']}: {r['detail']}"))
+        if not controls_only and not relevant and not ctl_rules:
+            continue
+        try:
+            r = run_variant(v, repo, extract, only_prop=prop)
+        except Exception as e:  # the self-validation must never turn an infrastructure problem into a verdict
+            res["variants"].append({"variant": v["name"], "status": "error", "detail": f"{type(e).__name__}: {e}"})
+            continue
+        entry = {"variant": v["name"], "kind": v.get("kind", "breaking"), "status": r["status"], "detail": r.get("detail", ""),
+                 "reported": {p: k for p, k in r.get("reported", {}).items() if p == prop}}
+        if ctl_rules:
+            entry["control_for"] = ctl_rules
+            res["controls"].append(entry)
+        else:
+            res["variants"].append(entry)
+        if r["status"] in ("inapplicable", "does-not-compile"):
+            continue
+        keys = r.get("reported", {}).get(prop, [])
+        for rid in ctl_rules:
+            pre = rid.replace(".", "/", 1) + "/"
+            if not any(k.startswith(pre) for k in keys):
+                res["failures"].append((f"CONTROL-DEAD-{rid}", f"positive control {v['name']} contains a construct that rule {rid} must report, but the rule stayed silent: the matcher is dead"))
+        if not controls_only:
+            if prop in v.get("expect", {}):
+                prefixes = v["expect"][prop]
+                if not any(any(k.startswith(pre) for pre in prefixes) for k in keys):
+                    res["failures"].append((f"MISSED-{v['name']}", f"seeded variant {v['name']} breaks {prop} ({v.get('desc','')}) but none of {prefixes} was reported"))
+            elif v.get("kind") == "benign" and keys:
+                res["failures"].append((f"FALSE-ALARM-{v['name']}", f"behaviour-preserving variant {v['name']} made {prop} fire: {keys}"))
         if verbose:
             print(v["name"], r["status"], r.get("detail", ""))
     return res
